@@ -489,6 +489,7 @@ def r8_trailing_sequences(ctx):
     need({'got_stdout', 'got_eval', 'runstate', 'unmatched'} <= set(params), 'C02.R8: signature of DoctestPart.check changed')
     cmp_calls = [(n, c) for n in g.nodes for c in node_calls(n) if ctx.res.resolve_call(f, c)[0] == 'repo' and ctx.res.resolve_call(f, c)[1][0].qualname == 'xdoctest.checker.check_got_vs_want']
     rep.floor('C02.R8', 'comparator calls in DoctestPart.check', len(cmp_calls), 1)
+    nonempty_heads = []
     for (n, c) in cmp_calls:
         loops = [fr for fr in n.frames if fr.kind == 'loop']
         if not loops:
@@ -532,6 +533,8 @@ def r8_trailing_sequences(ctx):
             ok_r = lo == parse_spec('1') and hi == parse_spec('N + 1')
         rep.ob('C02.R8', ctx.loc(f, it), ctx.src(it), ok_r,
                'every suffix length 1..len(T) is tried' if ok_r else 'not every trailing sequence is tried (range %s)' % ctx.src(it), anchor=CHECK)
+        if ok_r and ok_t and len(tdefs) == 1:
+            nonempty_heads.append(head)       # range(1, len(unmatched + [x]) + 1) has at least one element
         # (d) same value / state for every candidate
         a0 = c.args[0] if c.args else None
         if isinstance(a0, ast.Name):
@@ -568,6 +571,13 @@ def r8_trailing_sequences(ctx):
                 return False
             return True
         ok_e = not any(x is g.exit for x in graph.reachable([g.entry], efilter=cut))
+        if not ok_e:
+            # third idiom: the outcome travels in a local (None / the last mismatch).  Same question, with the values of simple locals followed
+            # and the candidate loop known to run at least once when it ranges over 1 .. len(unmatched + [got_stdout])
+            try:
+                ok_e = not any(x is g.exit for x in graph.reachable_with_values([g.entry], efilter=cut, nonempty_loops=nonempty_heads))
+            except RuntimeError:
+                pass
     rep.ob('C02.R8', ctx.loc(f, f.node), 'normal return <=> some candidate matched', ok_e,
            'check() returns normally only after a comparison completed without exception' if ok_e else
            'check() can return normally although no candidate matched (guards of the exit: %s)' % fmt_facts(facts), anchor=CHECK)
